@@ -48,6 +48,14 @@ class _StructRewrite(ast.NodeTransformer):
     def visit_Call(self, node):
         self.generic_visit(node)
         f = node.func
+        # getattr(x, "name") with a constant identifier is x.name
+        if isinstance(f, ast.Name) and f.id == "getattr" and len(node.args) == 2 and not node.keywords and isinstance(node.args[1], ast.Constant) \
+                and isinstance(node.args[1].value, str) and node.args[1].value.isidentifier():
+            return ast.copy_location(ast.Attribute(value=node.args[0], attr=node.args[1].value, ctx=ast.Load()), node)
+        # struct: '!' (network) and '>' (big endian) are the same byte order, size and alignment
+        if isinstance(f, ast.Attribute) and isinstance(f.value, ast.Name) and f.value.id == "struct" and f.attr in ("pack", "unpack", "unpack_from", "calcsize", "pack_into", "Struct") \
+                and node.args and isinstance(node.args[0], ast.Constant) and isinstance(node.args[0].value, str) and node.args[0].value.startswith("!"):
+            node.args[0] = ast.copy_location(ast.Constant(value=">" + node.args[0].value[1:]), node.args[0])
         if isinstance(f, ast.Attribute) and isinstance(f.value, ast.Name) and f.value.id in self.objs and f.attr in ("pack", "unpack", "unpack_from", "pack_into", "iter_unpack"):
             fmt = ast.copy_location(ast.Constant(value=self.objs[f.value.id]), node)
             new = ast.Call(func=ast.copy_location(ast.Attribute(value=ast.copy_location(ast.Name(id="struct", ctx=ast.Load()), node), attr=f.attr, ctx=ast.Load()), node),
@@ -116,7 +124,67 @@ def _simple_shape(h):
     # several returns, all of them in tail position of if/else arms (guard clauses): convertible to assignments
     if all(r.value is not None for r in rets) and _tail_convertible(body):
         return "tail"
+    # a search: simple statements, one for loop that returns a match from inside (if-nesting only), a default return
+    if _search_shape(body) is not None:
+        return "search"
     return None
+
+
+def _search_shape(body):
+    """-> (prefix statements, loop, default expression) for  [simple...] for ..: [if ..: return x]  [return default]"""
+    loops = [i for i, s in enumerate(body) if isinstance(s, ast.For)]
+    if len(loops) != 1:
+        return None
+    i = loops[0]
+    pre, loop, post = body[:i], body[i], body[i + 1:]
+    if any(_has_return(s) or isinstance(s, (ast.For, ast.While, ast.Try, ast.With)) for s in pre):
+        return None
+    if loop.orelse:
+        if len(loop.orelse) == 1 and isinstance(loop.orelse[0], ast.Return) and not post:
+            post = list(loop.orelse)
+        else:
+            return None
+    if len(post) > 1 or (post and not isinstance(post[0], ast.Return)):
+        return None
+    default = post[0].value if post and post[0].value is not None else ast.Constant(value=None)
+
+    def ok(stmts):
+        for s in stmts:
+            if isinstance(s, ast.Return):
+                if s.value is None:
+                    return False
+                continue
+            if isinstance(s, ast.If):
+                if not ok(s.body) or not ok(s.orelse):
+                    return False
+                continue
+            if isinstance(s, (ast.For, ast.While, ast.Try, ast.With)) and _has_return(s):
+                return False
+            if isinstance(s, (ast.Break,)):
+                return False
+        return True
+    if not ok(loop.body) or not _has_return(loop):
+        return None
+    return pre, loop, default
+
+
+def _searchify(body, target_name):
+    pre, loop, default = _search_shape(body)
+
+    def conv(stmts):
+        out = []
+        for s in stmts:
+            if isinstance(s, ast.Return):
+                out.append(ast.Assign(targets=[ast.Name(id=target_name, ctx=ast.Store())], value=s.value))
+                out.append(ast.Break())
+                return out
+            if isinstance(s, ast.If):
+                out.append(ast.If(test=s.test, body=conv(s.body) or [ast.Pass()], orelse=conv(s.orelse)))
+            else:
+                out.append(s)
+        return out
+    new_loop = ast.For(target=loop.target, iter=loop.iter, body=conv(loop.body), orelse=[], type_comment=None)
+    return list(pre) + [ast.Assign(targets=[ast.Name(id=target_name, ctx=ast.Store())], value=default), new_loop]
 
 
 def _always_returns(stmts):
@@ -384,7 +452,7 @@ class _Inliner:
                 renames[v] = "%s__%d" % (v, self.uid)
         body = [s for s in h.body if not (isinstance(s, ast.Expr) and isinstance(s.value, ast.Constant) and isinstance(s.value.value, str))]
         # `x = helper(..)` where the helper returns one of its own locals: that local simply becomes x
-        if adopt is not None and shape == "value" and isinstance(body[-1].value, ast.Name) and body[-1].value.id in stored and body[-1].value.id not in exprs:
+        if isinstance(adopt, str) and shape == "value" and isinstance(body[-1].value, ast.Name) and body[-1].value.id in stored and body[-1].value.id not in exprs:
             renames[body[-1].value.id] = adopt
         body = [_Subst(sub, renames).visit(copy.deepcopy(s)) for s in body]
         value = None
@@ -392,8 +460,19 @@ class _Inliner:
             value = body[-1].value
             body = body[:-1]
         elif shape == "tail":
-            ret = adopt if adopt is not None else "ret__%d" % self.uid
-            body = _tailify(body, ast.Name(id=ret, ctx=ast.Store()))
+            if isinstance(adopt, ast.Attribute):
+                tgt = copy.deepcopy(adopt)
+                tgt.ctx = ast.Store()
+                body = _tailify(body, tgt)
+                value = copy.deepcopy(adopt)
+                value.ctx = ast.Load()
+            else:
+                ret = adopt if adopt is not None else "ret__%d" % self.uid
+                body = _tailify(body, ast.Name(id=ret, ctx=ast.Store()))
+                value = ast.Name(id=ret, ctx=ast.Load())
+        elif shape == "search":
+            ret = adopt if isinstance(adopt, str) else "ret__%d" % self.uid
+            body = _searchify(body, ret)
             value = ast.Name(id=ret, ctx=ast.Load())
         elif body and isinstance(body[-1], ast.Return):
             body = body[:-1]
@@ -402,10 +481,75 @@ class _Inliner:
             ast.fix_missing_locations(s)
         return stmts, value
 
+    def _search_for_else(self, st, nxt, caller, caller_cls):
+        """`T = self._find(..)` + `if T is None: <miss>`  where _find is `for x in ITER: if COND: return x` (+ return None)
+        -> `for T in ITER: if COND: break` / `else: <miss>`   (the shape such a helper is usually extracted from)"""
+        if not (isinstance(st, ast.Assign) and len(st.targets) == 1 and isinstance(st.targets[0], ast.Name) and isinstance(st.value, ast.Call)):
+            return None
+        T = st.targets[0].id
+        if not (isinstance(nxt, ast.If) and not nxt.orelse):
+            return None
+        t = nxt.test
+        is_none = (isinstance(t, ast.Compare) and len(t.ops) == 1 and isinstance(t.ops[0], ast.Is) and isinstance(t.left, ast.Name) and t.left.id == T
+                   and isinstance(t.comparators[0], ast.Constant) and t.comparators[0].value is None) or \
+                  (isinstance(t, ast.UnaryOp) and isinstance(t.op, ast.Not) and isinstance(t.operand, ast.Name) and t.operand.id == T)
+        if not is_none:
+            return None
+        r = self.resolve(st.value, caller, caller_cls)
+        if r is None:
+            return None
+        h, args, recv = r
+        if self.candidate(h, caller) != "search":
+            return None
+        body = [s_ for s_ in h.body if not (isinstance(s_, ast.Expr) and isinstance(s_.value, ast.Constant) and isinstance(s_.value.value, str))]
+        pre, loop, default = _search_shape(body)
+        if pre or not (isinstance(default, ast.Constant) and default.value is None) or not isinstance(loop.target, ast.Name):
+            return None
+        rets = [n for n in ast.walk(loop) if isinstance(n, ast.Return)]
+        if not all(isinstance(x.value, ast.Name) and x.value.id == loop.target.id for x in rets):
+            return None
+        is_method = self.qual.get(id(h), (None, None))[1] is not None
+        exprs = self.bind(h, args, st.value.keywords, recv, is_method)
+        if exprs is None or not all(_is_simple_arg(e) for e in exprs.values()):
+            return None
+        stored = {n.id for n in _own_nodes(h) if isinstance(n, ast.Name) and isinstance(n.ctx, (ast.Store, ast.Del))}
+        if any(p_ in stored for p_ in exprs):
+            return None
+
+        def conv(stmts):
+            out = []
+            for s_ in stmts:
+                if isinstance(s_, ast.Return):
+                    out.append(ast.Break())
+                    return out
+                if isinstance(s_, ast.If):
+                    out.append(ast.If(test=s_.test, body=conv(s_.body) or [ast.Pass()], orelse=conv(s_.orelse)))
+                else:
+                    out.append(s_)
+            return out
+        new_loop = ast.For(target=ast.Name(id=loop.target.id, ctx=ast.Store()), iter=loop.iter, body=conv(copy.deepcopy(loop.body)), orelse=[], type_comment=None)
+        new_loop = _Subst(dict(exprs), {loop.target.id: T}).visit(copy.deepcopy(new_loop))
+        ast.fix_missing_locations(new_loop)
+        _relocate([new_loop], getattr(st, "lineno", 0), 0)
+        new_loop.orelse = nxt.body
+        self.count += 1
+        return new_loop
+
     def process_block(self, stmts, caller, caller_cls):
         """inline inside a statement list; returns the new list"""
         out = []
-        for st in stmts:
+        skip = False
+        for idx_, st in enumerate(stmts):
+            if skip:
+                skip = False
+                continue
+            if idx_ + 1 < len(stmts):
+                fe = self._search_for_else(st, stmts[idx_ + 1], caller, caller_cls)
+                if fe is not None:
+                    fe.orelse = self.process_block(fe.orelse, caller, caller_cls)
+                    out.append(fe)
+                    skip = True
+                    continue
             # recurse into nested blocks first
             for fld in ("body", "orelse", "finalbody"):
                 blk = getattr(st, fld, None)
@@ -439,11 +583,14 @@ class _Inliner:
                 if isinstance(st, (ast.While, ast.For)) and any(call is x for e in exprs_of_stmt for x in ast.walk(e)):
                     if shape != "value" or len(h.body) > 2:
                         continue        # cannot hoist out of a loop header
-                if shape == "tail" and isinstance(st, (ast.While, ast.For)):
+                if shape in ("tail", "search") and isinstance(st, (ast.While, ast.For)):
                     continue
                 adopt = None
                 if isinstance(st, ast.Assign) and st.value is call and len(st.targets) == 1 and isinstance(st.targets[0], ast.Name):
                     adopt = st.targets[0].id
+                elif isinstance(st, ast.Assign) and st.value is call and len(st.targets) == 1 and isinstance(st.targets[0], ast.Attribute) and shape == "tail" \
+                        and _is_simple_arg(st.targets[0]):
+                    adopt = st.targets[0]          # `self.x = helper()`: the helper's returns become stores into self.x
                 new_stmts, value = self.expand(h, exprs, caller, shape, getattr(st, "lineno", 0), adopt)
                 base = getattr(st, "lineno", 0)
                 if shape == "stmt":
@@ -472,8 +619,10 @@ class _Inliner:
                         n.end_col_offset = getattr(call, "end_col_offset", 0)
                 out.extend(new_stmts)
                 self.count += 1
-                if adopt is not None and isinstance(value, ast.Name) and value.id == adopt:
+                if isinstance(adopt, str) and isinstance(value, ast.Name) and value.id == adopt:
                     done = True         # `x = x` is not kept
+                if isinstance(adopt, ast.Attribute) and isinstance(value, ast.Attribute) and ast.dump(value) == ast.dump(st.targets[0]).replace("Store()", "Load()"):
+                    done = True
                 # one inlining per statement and pass; further calls are handled in the next pass
                 break
             if not done:
@@ -488,7 +637,30 @@ class _Inliner:
                 fn.body = self.process_block(fn.body, fn, cls)
             if self.count == before:
                 break
+        if self.count:
+            self._drop_unreferenced()
         return self.count
+
+    def _drop_unreferenced(self):
+        """a helper the reference does not know and that nothing calls any more is not part of the analysed program"""
+        used = set()
+        for n in ast.walk(self.tree):
+            if isinstance(n, ast.Attribute):
+                used.add(n.attr)
+            elif isinstance(n, ast.Name):
+                used.add(n.id)
+            elif isinstance(n, ast.Constant) and isinstance(n.value, str):
+                used.add(n.value)
+        for holder in [self.tree] + list(self.classes.values()):
+            keep = []
+            for st in holder.body:
+                if isinstance(st, ast.FunctionDef):
+                    q = self.qual.get(id(st), (None, None))[0]
+                    if q is not None and q not in self.known and st.name.startswith("_") and not st.name.startswith("__") and st.name not in used:
+                        continue
+                keep.append(st)
+            if keep:
+                holder.body = keep
 
 
 def _replace_node(root, old, new):
@@ -508,13 +680,139 @@ def _replace_node(root, old, new):
 def normalize(tree, modname, reference):
     """in place; -> dict of counts"""
     counts = {}
-    objs = _struct_objects(tree)
-    if objs:
-        r = _StructRewrite(objs)
-        r.visit(tree)
-        counts["struct_objects"] = r.count
+    objs = {k: (">" + v[1:] if isinstance(v, str) and v.startswith("!") else v) for k, v in _struct_objects(tree).items()}
+    r = _StructRewrite(objs)
+    r.visit(tree)
+    counts["struct_objects"] = r.count
     ref = (reference or {}).get(modname) or {}
     known = set(ref.get("__functions__", []))
     if known:
         counts["inlined"] = _Inliner(tree, known).run()
     return counts
+
+
+# ---------------------------------------------------------------- new explaining locals
+
+_PURE_CALLS = {"len", "min", "max", "int", "abs", "isinstance", "issubclass", "bool", "tuple", "divmod", "float", "str"}
+
+
+def _is_pure(e):
+    for n in ast.walk(e):
+        if isinstance(n, ast.Call):
+            if not (isinstance(n.func, ast.Name) and n.func.id in _PURE_CALLS and not n.keywords):
+                return False
+        elif isinstance(n, (ast.Lambda, ast.ListComp, ast.SetComp, ast.DictComp, ast.GeneratorExp, ast.Yield, ast.YieldFrom, ast.Await, ast.NamedExpr, ast.Starred,
+                            ast.List, ast.Dict, ast.Set, ast.JoinedStr)):
+            return False
+    return True
+
+
+def _text(e):
+    try:
+        return ast.unparse(e)
+    except Exception:
+        return ast.dump(e)
+
+
+def inline_new_locals(tree, modname, reference, qualnames_fn):
+    """a local the reviewed reference does not know, assigned once from a pure expression whose inputs are not assigned
+    afterwards, and whose assignment dominates its uses, is replaced by that expression (an 'explaining variable')"""
+    ref = (reference or {}).get(modname) or {}
+    known_fns = set(ref.get("__functions__", []))
+    if not known_fns:
+        return 0
+    count = 0
+    for q, fn in qualnames_fn(tree):
+        if q not in known_fns:
+            continue
+        known = {b[0] for b in ref.get(q, [])}
+        params = {a.arg for a in fn.args.args + fn.args.kwonlyargs}
+        if fn.args.vararg:
+            params.add(fn.args.vararg.arg)
+        if fn.args.kwarg:
+            params.add(fn.args.kwarg.arg)
+        own = _own_nodes(fn)
+        nested_names = set()
+        for n in own:
+            if isinstance(n, _SCOPES) or isinstance(n, (ast.ListComp, ast.SetComp, ast.DictComp, ast.GeneratorExp)):
+                for x in ast.walk(n):
+                    if isinstance(x, ast.Name):
+                        nested_names.add(x.id)
+        stores = {}
+        for n in own:
+            if isinstance(n, ast.Name) and isinstance(n.ctx, (ast.Store, ast.Del)):
+                stores.setdefault(n.id, []).append(n)
+            elif isinstance(n, ast.ExceptHandler) and n.name:
+                stores.setdefault(n.name, []).append(n)
+        # parent links within the function (the model's parent pointers are not set yet)
+        parent = {}
+        for n in ast.walk(fn):
+            for ch in ast.iter_child_nodes(n):
+                parent[id(ch)] = n
+        changed = True
+        rounds = 0
+        while changed and rounds < 4:
+            changed = False
+            rounds += 1
+            for v, sts in list(stores.items()):
+                if v in known or v in params or v in nested_names or len(sts) != 1 or not isinstance(sts[0], ast.Name):
+                    continue
+                d = parent.get(id(sts[0]))
+                if not (isinstance(d, ast.Assign) and len(d.targets) == 1 and d.targets[0] is sts[0] and _is_pure(d.value)):
+                    continue
+                blk_owner = parent.get(id(d))
+                blk = None
+                for fld in ("body", "orelse", "finalbody"):
+                    lst = getattr(blk_owner, fld, None)
+                    if isinstance(lst, list) and d in lst:
+                        blk = lst
+                if blk is None:
+                    continue
+                uses = [n for n in _own_nodes(fn) if isinstance(n, ast.Name) and n.id == v and isinstance(n.ctx, ast.Load)]
+                if not uses:
+                    continue
+                # domination: every use lies in a later statement of the same block (or nested in one)
+                later = blk[blk.index(d) + 1:]
+                later_ids = set()
+                for st in later:
+                    for x in ast.walk(st):
+                        later_ids.add(id(x))
+                if not all(id(u) in later_ids for u in uses):
+                    continue
+                # kills: nothing the expression mentions is assigned after the definition
+                mentioned = {_text(x) for x in ast.walk(d.value) if isinstance(x, (ast.Name, ast.Attribute))}
+                dline = getattr(d, "lineno", 0)
+                killed = False
+                for n in _own_nodes(fn):
+                    if isinstance(n, (ast.Name, ast.Attribute, ast.Subscript)) and isinstance(getattr(n, "ctx", None), (ast.Store, ast.Del)) and getattr(n, "lineno", 0) >= dline and n is not sts[0]:
+                        t = _text(n.value) if isinstance(n, ast.Subscript) else _text(n)
+                        if t in mentioned:
+                            killed = True
+                            break
+                if killed:
+                    continue
+                for u in uses:
+                    new = copy.deepcopy(d.value)
+                    for x in ast.walk(new):
+                        if hasattr(u, "lineno"):
+                            x.lineno = u.lineno
+                            x.end_lineno = getattr(u, "end_lineno", u.lineno)
+                            x.col_offset = u.col_offset
+                            x.end_col_offset = getattr(u, "end_col_offset", u.col_offset)
+                    par = parent.get(id(u))
+                    if par is None or not _replace_node(par, u, new):
+                        killed = True
+                        break
+                    for x in ast.walk(new):
+                        for ch in ast.iter_child_nodes(x):
+                            parent[id(ch)] = x
+                    parent[id(new)] = par
+                if killed:
+                    continue
+                blk.remove(d)
+                if not blk:
+                    blk.append(ast.copy_location(ast.Pass(), d))
+                del stores[v]
+                count += 1
+                changed = True
+    return count
